@@ -4,7 +4,7 @@ set -u
 ID="$1"; WORK="$2"; shift 2
 cd "$VERIF_DIR/harness" || exit 2
 case "$ID" in
-  C09|C10|C11|C12|C18|C19|PROBE) MODE=instr ;;
+  C08|C09|C10|C11|C12|C18|C19|PROBE) MODE=instr ;;
   *) MODE=plain ;;
 esac
 if [ "$MODE" = instr ]; then
